@@ -44,7 +44,9 @@ var xlateTargets = map[string][]string{
 		"rangeDecoder.possiblyAtEnd", "newRangeDecoder",
 		"state.updateStateLiteral", "state.updateStateMatch", "state.updateStateRep", "state.updateStateShortRep",
 		"state.states", "state.litState",
+		"decodeDictCap", "DecodeDictCap", "EncodeDictCap",
 	},
+	".": {"padLen", "readUvarint"},
 }
 
 type xfunc struct {
@@ -122,6 +124,15 @@ func intInfo(t types.Type) (bits int, signed bool, ok bool) {
 func isErrorType(t types.Type) bool {
 	n, ok := t.(*types.Named)
 	return ok && n.Obj().Pkg() == nil && n.Obj().Name() == "error"
+}
+
+// parameters through which a callee's effects are visible to the caller: pointers, and the two modelled interfaces
+// (an io.ByteReader / io.ByteWriter value stands for the stream behind it)
+func isRefType(t types.Type) bool {
+	if _, ok := t.(*types.Pointer); ok {
+		return true
+	}
+	return namedIs(t, "io", "ByteReader") || namedIs(t, "io", "ByteWriter")
 }
 
 func namedIs(t types.Type, pkg, name string) bool {
@@ -760,6 +771,7 @@ func (c *xctx) call(v *ast.CallExpr) []string {
 			a := c.expr(v.Args[0])
 			r, m := c.fresh("err"), c.fresh("w")
 			wb := c.assignTo(recvExpr, m)
+			c.noteMut(recvExpr)
 			call := fmt.Sprintf("Go.ByteWriter.WriteByte %s %s", c.expr(recvExpr), a)
 			c.pre = append(c.pre, func(rest string) string {
 				return fmt.Sprintf("let (%s, %s) := %s%s%s%s%s", r, m, call, c.ind(), wb, c.ind(), rest)
@@ -769,6 +781,7 @@ func (c *xctx) call(v *ast.CallExpr) []string {
 		if namedIs(rt, "io", "ByteReader") && callee.Name() == "ReadByte" {
 			b, r, m := c.fresh("b"), c.fresh("err"), c.fresh("r")
 			wb := c.assignTo(recvExpr, m)
+			c.noteMut(recvExpr)
 			call := fmt.Sprintf("Go.ByteReader.ReadByte %s", c.expr(recvExpr))
 			c.pre = append(c.pre, func(rest string) string {
 				return fmt.Sprintf("let (%s, %s, %s) := %s%s%s%s%s", b, r, m, call, c.ind(), wb, c.ind(), rest)
@@ -794,13 +807,13 @@ func (c *xctx) call(v *ast.CallExpr) []string {
 	var ptrExprs []ast.Expr
 	if recvExpr != nil {
 		args = append(args, c.expr(recvExpr))
-		if _, ok := tf.recv.Type().(*types.Pointer); ok {
+		if isRefType(tf.recv.Type()) {
 			ptrExprs = append(ptrExprs, recvExpr)
 		}
 	}
 	for i, a := range v.Args {
 		args = append(args, c.exprT(a, tf.sig.Params().At(i).Type()))
-		if _, ok := tf.sig.Params().At(i).Type().(*types.Pointer); ok {
+		if isRefType(tf.sig.Params().At(i).Type()) {
 			ptrExprs = append(ptrExprs, a)
 		}
 	}
@@ -1449,12 +1462,12 @@ func genGoSrc(dir string) error {
 				}
 				xf := &xfunc{key: key, lean: "GoSrc." + strings.ReplaceAll(key, ".", "_"), decl: fd, sig: sig, recv: sig.Recv(), mut: map[*types.Var]bool{}}
 				if sig.Recv() != nil {
-					if _, ok := sig.Recv().Type().(*types.Pointer); ok {
+					if isRefType(sig.Recv().Type()) {
 						xf.ptrs = append(xf.ptrs, sig.Recv())
 					}
 				}
 				for i := 0; i < sig.Params().Len(); i++ {
-					if _, ok := sig.Params().At(i).Type().(*types.Pointer); ok {
+					if isRefType(sig.Params().At(i).Type()) {
 						xf.ptrs = append(xf.ptrs, sig.Params().At(i))
 					}
 				}
